@@ -1,14 +1,16 @@
 package main
 
-// Rename tolerance for the name-based facts (G1 constants, G2 wire tags, the detector arguments): when a
+// Rename tolerance for the name-based facts (G1 constants, G2 wire tags, the detector arguments, G8): when a
 // declaration the extractor looks up by name no longer exists under that name, harness/shims/baseline.json
 // (the signatures of the pinned tree, recorded by mkshims) is consulted; if exactly one declaration that is new in
-// the current tree has the same kind and signature (for a constant: the same value; for a struct: the same
-// fields and tags), the fact is read from it.  (pkgDecls is the same function as in cmd/mkshims.)
+// the current tree has the same kind and signature (a constant: the same value or the same position in its iota
+// block; a struct: the same fields and tags, or the same field types in order), the fact is read from it.
+// (pkgDecls, structFields, substTypes and typeRenames are the same functions as in cmd/mkshims.)
 
 import (
 	"bytes"
 	"encoding/json"
+	"fmt"
 	"go/ast"
 	"go/parser"
 	"go/printer"
@@ -16,6 +18,7 @@ import (
 	"os"
 	"path/filepath"
 	"regexp"
+	"sort"
 	"strings"
 )
 
@@ -62,7 +65,10 @@ func pkgDecls(dir string) (map[string]sigEntry, error) {
 						out[d.Name.Name] = sigEntry{Kind: "func", Sig: show(ft)}
 					}
 				case *ast.GenDecl:
-					for _, s := range d.Specs {
+					// a const block that uses iota: every constant is identified by its position in the
+					// block together with the block's first (type, expression)
+					iotaHead := ""
+					for si, s := range d.Specs {
 						switch s := s.(type) {
 						case *ast.TypeSpec:
 							out[s.Name.Name] = sigEntry{Kind: "type", Sig: show(s.Type)}
@@ -71,6 +77,14 @@ func pkgDecls(dir string) (map[string]sigEntry, error) {
 							if d.Tok == token.CONST {
 								kind = "const"
 							}
+							if kind == "const" && len(s.Values) > 0 && strings.Contains(show(s.Values[0]), "iota") {
+								iotaHead = "= " + show(s.Values[0])
+								if s.Type != nil {
+									iotaHead = show(s.Type) + " " + iotaHead
+								}
+							} else if len(s.Values) > 0 {
+								iotaHead = ""
+							}
 							for i, n := range s.Names {
 								sig := ""
 								if s.Type != nil {
@@ -78,6 +92,9 @@ func pkgDecls(dir string) (map[string]sigEntry, error) {
 								}
 								if i < len(s.Values) {
 									sig += "= " + show(s.Values[i])
+								}
+								if kind == "const" && iotaHead != "" {
+									sig = fmt.Sprintf("%s @iota[%d]", iotaHead, si)
 								}
 								out[n.Name] = sigEntry{Kind: kind, Sig: sig}
 							}
@@ -111,6 +128,91 @@ func stripNames(ft *ast.FuncType) *ast.FuncType {
 	return &ast.FuncType{Params: cp(ft.Params), Results: cp(ft.Results)}
 }
 
+// structFields: (name, type) of every field of a struct type printed on one line; nil if not a struct.
+func structFields(sig string) [][2]string {
+	expr, err := parser.ParseExpr(sig)
+	if err != nil {
+		return nil
+	}
+	st, ok := expr.(*ast.StructType)
+	if !ok || st.Fields == nil {
+		return nil
+	}
+	fset := token.NewFileSet()
+	var out [][2]string
+	for _, f := range st.Fields.List {
+		var b bytes.Buffer
+		_ = printer.Fprint(&b, fset, f.Type)
+		if len(f.Names) == 0 {
+			out = append(out, [2]string{"", b.String()})
+		}
+		for _, n := range f.Names {
+			out = append(out, [2]string{n.Name, b.String()})
+		}
+	}
+	return out
+}
+
+func substTypes(sig string, ren map[string]string) string {
+	for o, n := range ren {
+		sig = regexp.MustCompile(`\b`+regexp.QuoteMeta(o)+`\b`).ReplaceAllString(sig, n)
+	}
+	return sig
+}
+
+// typeRenames: types of the pinned tree that exist in the current tree under a new name - same
+// definition, or (structs) the same field types in the same order with possibly renamed fields.
+func typeRenames(base, cur map[string]sigEntry) map[string]string {
+	ren := map[string]string{}
+	taken := map[string]bool{}
+	isNew := func(n string) bool { _, ok := base[n]; return !ok }
+	var names []string
+	for n, e := range base {
+		if e.Kind == "type" {
+			names = append(names, n)
+		}
+	}
+	sort.Strings(names)
+	for changed := true; changed; {
+		changed = false
+		for _, n := range names {
+			if _, present := cur[n]; present {
+				continue
+			}
+			if _, done := ren[n]; done {
+				continue
+			}
+			want := substTypes(base[n].Sig, ren)
+			wf := structFields(want)
+			var c []string
+			for m, e := range cur {
+				if e.Kind != "type" || !isNew(m) || taken[m] {
+					continue
+				}
+				if e.Sig == want {
+					c = append(c, m)
+					continue
+				}
+				if cf := structFields(e.Sig); wf != nil && len(cf) == len(wf) && len(wf) > 0 {
+					same := true
+					for i := range wf {
+						if wf[i][1] != cf[i][1] {
+							same = false
+						}
+					}
+					if same {
+						c = append(c, m)
+					}
+				}
+			}
+			if len(c) == 1 {
+				ren[n], taken[c[0]], changed = c[0], true, true
+			}
+		}
+	}
+	return ren
+}
+
 
 var (
 	sigBaseline map[string]map[string]sigEntry
@@ -137,7 +239,8 @@ func loadBaseline() {
 	}
 }
 
-// resolveName: the current name of the declaration the pinned tree calls `name` in package `dir`.
+// resolveName: the current name of the declaration the pinned tree calls `name` in package `dir`
+// (`Type.method` for methods: the result is then the bare method name).
 func resolveName(dir, name string) string {
 	loadBaseline()
 	cur, ok := sigCurrent[dir]
@@ -145,21 +248,43 @@ func resolveName(dir, name string) string {
 		cur, _ = pkgDecls(filepath.Join(repo, dir))
 		sigCurrent[dir] = cur
 	}
-	if _, present := cur[name]; present || cur == nil {
-		return name
+	bare := name[strings.LastIndex(name, ".")+1:]
+	if cur == nil {
+		return bare
 	}
-	b, ok := sigBaseline[dir][name]
+	base := sigBaseline[dir]
+	b, ok := base[name]
 	if !ok {
-		return name
+		return bare
+	}
+	typeRen := typeRenames(base, cur)
+	key := name
+	if b.Kind == "method" {
+		recvT := strings.TrimSuffix(name, "."+bare)
+		if r, ok := typeRen[recvT]; ok {
+			key = r + "." + bare
+		}
+	}
+	if _, present := cur[key]; present {
+		return bare
+	}
+	if b.Kind == "type" {
+		if r, ok := typeRen[name]; ok {
+			return r
+		}
+		return bare
 	}
 	var c []string
 	for n, e := range cur {
-		if _, old := sigBaseline[dir][n]; !old && e.Kind == b.Kind && e.Sig == b.Sig && e.Recv == b.Recv {
-			c = append(c, n)
+		if _, old := base[n]; old {
+			continue
+		}
+		if e.Kind == b.Kind && e.Sig == substTypes(b.Sig, typeRen) && e.Recv == substTypes(b.Recv, typeRen) {
+			c = append(c, n[strings.LastIndex(n, ".")+1:])
 		}
 	}
 	if len(c) == 1 {
 		return c[0]
 	}
-	return name
+	return bare
 }
